@@ -719,7 +719,15 @@ fn calculate_sighash_preimage(txscript: &mut TxScript, sighash: SigHash, codesep
     let unlock_script_len = txin.get_unlocking_script().to_script_bits().len();
     let script_offset = codeseparator_offset.saturating_sub(unlock_script_len);
     let unsigned_script = match txin.get_locking_script() {
-        Some(v) => Script::from_script_bits(v.to_script_bits()[script_offset..].to_vec()),
+        Some(v) => {
+            let locking_bits = v.to_script_bits();
+            // Branches of executed conditionals are spliced into the running script, so a separator executed inside
+            // one can point past the end of the locking script: that is an error, not a reason to panic.
+            if script_offset > locking_bits.len() {
+                return Err(InterpreterError::InvalidStackOperation("OP_CODESEPARATOR position is outside the locking script"));
+            }
+            Script::from_script_bits(locking_bits[script_offset..].to_vec())
+        }
         None => return Err(InterpreterError::InvalidStackOperation("TxIn at given index does not have locking script provided")),
     };
     println!("Unsigned script: {}", unsigned_script.to_asm_string());
